@@ -1,6 +1,35 @@
 package main
 
-// Replay of counterexamples on the real code (go test -overlay with an injected in-package test).
+// Replay of counterexamples on the real code: the solver's model of a failed `ensures`
+// obligation gives values for the parameters of the unit; an in-package Go test, injected with
+// `go test -overlay` (nothing is written into the repository), calls the real function with
+// these values and evaluates the violated clause - translated from the contract language to Go -
+// on what the real code returns.  The replay confirms the violation when the precondition holds
+// and the clause is false (or the call panics) on the real code.
+//
+// Reach of the driver (everything else is reported as "not attempted" and the VIOLATION line
+// keeps its suffix no-failing-input-found): units whose parameters are scalars (integers,
+// booleans, named integer types; a receiver or parameter `*T` with scalar T is passed as the
+// address of a local), clauses built from Go expressions over parameters, `result`, `old(..)`,
+// `ite`, `==>`, `<==>`, `forall(v, lo, hi, ..)` with constant bounds, `testbit`, calls of
+// functions/methods of the package and of non-recursive spec functions.
+
+import (
+	"encoding/json"
+	"fmt"
+	"go/ast"
+	"go/printer"
+	"go/token"
+	"go/types"
+	"os"
+	"os/exec"
+	"path/filepath"
+	"regexp"
+	"sort"
+	"strconv"
+	"strings"
+	"time"
+)
 
 type ReplayResult struct {
 	Attempted bool   `json:"attempted"`
@@ -9,8 +38,504 @@ type ReplayResult struct {
 	Input     string `json:"input,omitempty"`
 	Output    string `json:"output,omitempty"`
 	Note      string `json:"note,omitempty"`
+	PkgDir    string `json:"package_dir,omitempty"`
+	Test      string `json:"test_source,omitempty"`
+}
+
+const modulePath = "github.com/frankkopp/FrankyGo"
+
+type goTrans struct {
+	p       *Program
+	ct      *Contract
+	ptrs    map[string]bool // parameters that are pointers to scalars
+	specs   map[string]bool // spec functions needed
+	inOld   bool
+	imports map[string]bool
+	bound   map[string]bool
+}
+
+func exprStr(e ast.Expr) string {
+	var b strings.Builder
+	printer.Fprint(&b, token.NewFileSet(), e)
+	return b.String()
+}
+
+func (g *goTrans) tr(e ast.Expr) (string, error) {
+	switch x := e.(type) {
+	case *ast.Ident:
+		switch x.Name {
+		case "result", "result0":
+			return "r0", nil
+		case "result1":
+			return "r1", nil
+		}
+		return x.Name, nil
+	case *ast.BasicLit:
+		return x.Value, nil
+	case *ast.ParenExpr:
+		s, err := g.tr(x.X)
+		return "(" + s + ")", err
+	case *ast.UnaryExpr:
+		s, err := g.tr(x.X)
+		return x.Op.String() + "(" + s + ")", err
+	case *ast.StarExpr:
+		if id, ok := x.X.(*ast.Ident); ok && g.ptrs[id.Name] {
+			if g.inOld {
+				return "old_" + id.Name, nil
+			}
+			return "(*" + id.Name + ")", nil
+		}
+		return "", fmt.Errorf("dereference %s", exprStr(e))
+	case *ast.BinaryExpr:
+		a, err := g.tr(x.X)
+		if err != nil {
+			return "", err
+		}
+		b, err := g.tr(x.Y)
+		if err != nil {
+			return "", err
+		}
+		return "(" + a + " " + x.Op.String() + " " + b + ")", nil
+	case *ast.SelectorExpr:
+		if id, ok := x.X.(*ast.Ident); ok {
+			if _, isParam := g.bound[id.Name]; !isParam {
+				// package qualifier?
+				if tp := g.p.tpkgs[id.Name]; tp != nil {
+					g.imports[tp.Path()] = true
+					return id.Name + "." + x.Sel.Name, nil
+				}
+				if id.Name == "time" {
+					g.imports["time"] = true
+					return "time." + x.Sel.Name, nil
+				}
+			}
+		}
+		s, err := g.tr(x.X)
+		return s + "." + x.Sel.Name, err
+	case *ast.IndexExpr:
+		a, err := g.tr(x.X)
+		if err != nil {
+			return "", err
+		}
+		b, err := g.tr(x.Index)
+		return a + "[" + b + "]", err
+	case *ast.CallExpr:
+		var args []string
+		name := ""
+		if id, ok := x.Fun.(*ast.Ident); ok {
+			name = id.Name
+		}
+		switch name {
+		case "old":
+			if len(x.Args) != 1 {
+				return "", fmt.Errorf("old")
+			}
+			was := g.inOld
+			g.inOld = true
+			s, err := g.tr(x.Args[0])
+			g.inOld = was
+			return "(" + s + ")", err
+		case "forall", "exists":
+			if len(x.Args) != 4 {
+				return "", fmt.Errorf("quantifier shape")
+			}
+			v, ok := x.Args[0].(*ast.Ident)
+			if !ok {
+				return "", fmt.Errorf("quantifier variable")
+			}
+			lo, err := g.tr(x.Args[1])
+			if err != nil {
+				return "", err
+			}
+			hi, err := g.tr(x.Args[2])
+			if err != nil {
+				return "", err
+			}
+			g.bound[v.Name] = true
+			body, err := g.tr(x.Args[3])
+			delete(g.bound, v.Name)
+			if err != nil {
+				return "", err
+			}
+			fn := "govcForall"
+			if name == "exists" {
+				fn = "govcExists"
+			}
+			return fmt.Sprintf("%s(int(%s), int(%s), func(%s int) bool { return %s })", fn, lo, hi, v.Name, body), nil
+		}
+		for _, a := range x.Args {
+			s, err := g.tr(a)
+			if err != nil {
+				return "", err
+			}
+			args = append(args, s)
+		}
+		switch name {
+		case "implies":
+			return "(!(" + args[0] + ") || (" + args[1] + "))", nil
+		case "iff":
+			return "((" + args[0] + ") == (" + args[1] + "))", nil
+		case "ite":
+			return "govcIte(" + strings.Join(args, ", ") + ")", nil
+		case "testbit":
+			return "govcTestbit(uint64(" + args[0] + "), int(" + args[1] + "))", nil
+		case "uninterp", "store", "elems", "sliceoff", "lockheld", "fresh", "orfold", "xorfold", "sum":
+			return "", fmt.Errorf("spec builtin %s has no executable reading", name)
+		}
+		if name != "" {
+			if sf := g.p.cs.Specs[name]; sf != nil {
+				if sf.Recursive {
+					return "", fmt.Errorf("recursive spec function %s", name)
+				}
+				g.specs[name] = true
+				return "spec_" + name + "(" + strings.Join(args, ", ") + ")", nil
+			}
+		}
+		f, err := g.tr(x.Fun)
+		if err != nil {
+			return "", err
+		}
+		return f + "(" + strings.Join(args, ", ") + ")", nil
+	}
+	return "", fmt.Errorf("expression form %T", e)
+}
+
+// specFuncs renders the needed spec functions (transitively) as Go functions
+func (g *goTrans) specFuncs() (string, error) {
+	var out strings.Builder
+	done := map[string]bool{}
+	for {
+		var todo []string
+		for n := range g.specs {
+			if !done[n] {
+				todo = append(todo, n)
+			}
+		}
+		if len(todo) == 0 {
+			break
+		}
+		sort.Strings(todo)
+		for _, n := range todo {
+			done[n] = true
+			sf := g.p.cs.Specs[n]
+			var ps []string
+			savedBound := g.bound
+			g.bound = map[string]bool{}
+			for _, prm := range sf.Params {
+				if strings.ContainsAny(prm.Typ, "[]*") {
+					return "", fmt.Errorf("spec function %s has a non-scalar parameter", n)
+				}
+				ps = append(ps, prm.Name+" "+prm.Typ)
+				g.bound[prm.Name] = true
+			}
+			savedPtrs := g.ptrs
+			g.ptrs = map[string]bool{}
+			body, err := g.tr(sf.Body.E)
+			g.ptrs = savedPtrs
+			g.bound = savedBound
+			if err != nil {
+				return "", fmt.Errorf("spec function %s: %v", n, err)
+			}
+			res := sf.Result
+			fmt.Fprintf(&out, "func spec_%s(%s) %s { return %s(%s) }\n", n, strings.Join(ps, ", "), res, res, body)
+		}
+	}
+	return out.String(), nil
+}
+
+var modelDefRe = regexp.MustCompile(`\(define-fun\s+k\d+_p_(\w+)\s+\(\)\s+(\(_ BitVec \d+\)|Bool)\s+(#[bx][0-9a-fA-F]+|true|false)\s*\)`)
+
+func parseModelParams(out string) map[string]string {
+	m := map[string]string{}
+	for _, mm := range modelDefRe.FindAllStringSubmatch(out, -1) {
+		m[mm[1]] = mm[3]
+	}
+	return m
+}
+
+func modelLiteral(v string) (uint64, bool, bool) { // value, isBool, boolValue
+	switch v {
+	case "true":
+		return 1, true, true
+	case "false":
+		return 0, true, false
+	}
+	if strings.HasPrefix(v, "#b") {
+		u, _ := strconv.ParseUint(v[2:], 2, 64)
+		return u, false, false
+	}
+	if strings.HasPrefix(v, "#x") {
+		u, _ := strconv.ParseUint(v[2:], 16, 64)
+		return u, false, false
+	}
+	return 0, false, false
+}
+
+func scalarType(t types.Type) bool {
+	b, ok := t.Underlying().(*types.Basic)
+	return ok && b.Info()&(types.IsInteger|types.IsBoolean) != 0
 }
 
 func (p *Program) replay(verif, prop string, v *Violation, ob *Oblig) *ReplayResult {
-	return &ReplayResult{Attempted: false, Note: "no replay driver for this obligation family"}
+	na := func(format string, a ...interface{}) *ReplayResult {
+		return &ReplayResult{Attempted: false, Note: fmt.Sprintf(format, a...)}
+	}
+	if ob == nil || ob.Kind != "ensures" {
+		return na("no replay driver for this obligation family (only `ensures` clauses of scalar units are replayed)")
+	}
+	if ob.Status != "sat" {
+		return na("the solver gave no model (%s)", ob.Status)
+	}
+	ct := p.contracts[ob.Fn]
+	if ct == nil {
+		return na("unit %s not found", ob.Fn)
+	}
+	model := parseModelParams(ob.Output)
+	g := &goTrans{p: p, ct: ct, ptrs: map[string]bool{}, specs: map[string]bool{}, imports: map[string]bool{}, bound: map[string]bool{}}
+	type prm struct {
+		name, typ string
+		ptr, isBool bool
+	}
+	var prms []prm
+	pkgPath := ""
+	var qual types.Qualifier
+	if ct.IsLemma {
+		sp := p.spkgs[ct.Pkg]
+		if sp == nil {
+			return na("package %s not found", ct.Pkg)
+		}
+		pkgPath = sp.Pkg.Path()
+		for _, q := range ct.Params {
+			if strings.ContainsAny(q.Typ, "[]*") {
+				return na("lemma parameter %s %s is not a scalar", q.Name, q.Typ)
+			}
+			prms = append(prms, prm{name: q.Name, typ: q.Typ, isBool: q.Typ == "bool"})
+		}
+	} else {
+		if ct.Fn == nil {
+			return na("no function body")
+		}
+		pkgPath = ct.Fn.Pkg.Pkg.Path()
+		qual = func(other *types.Package) string {
+			if other.Path() == pkgPath {
+				return ""
+			}
+			g.imports[other.Path()] = true
+			return other.Name()
+		}
+		for _, q := range ct.Fn.Params {
+			t := q.Type()
+			if pt, ok := t.Underlying().(*types.Pointer); ok && scalarType(pt.Elem()) {
+				prms = append(prms, prm{name: q.Name(), typ: types.TypeString(pt.Elem(), qual), ptr: true, isBool: false})
+				g.ptrs[q.Name()] = true
+				continue
+			}
+			if !scalarType(t) {
+				return na("parameter %s of type %s is not a scalar: the model's heap is not translated back into Go values", q.Name(), t)
+			}
+			b := t.Underlying().(*types.Basic)
+			prms = append(prms, prm{name: q.Name(), typ: types.TypeString(t, qual), isBool: b.Info()&types.IsBoolean != 0})
+		}
+	}
+	for _, q := range prms {
+		g.bound[q.name] = true
+	}
+	// the violated clause(s)
+	var clauses []SpecExpr
+	for _, en := range ct.Ensures {
+		if en.Label == ob.Label {
+			clauses = append(clauses, en)
+		}
+	}
+	if len(clauses) == 0 {
+		clauses = ct.Ensures
+	}
+	var body strings.Builder
+	var inputs []string
+	for _, q := range prms {
+		val, okm := model[q.name]
+		if q.ptr {
+			val, okm = model[q.name+"__deref"]
+		}
+		if !okm {
+			val = "#x0"
+			if q.isBool {
+				val = "false"
+			}
+		}
+		u, isB, bv := modelLiteral(val)
+		name := q.name
+		if q.ptr {
+			name = "old_" + q.name
+		}
+		if q.isBool || isB {
+			fmt.Fprintf(&body, "\tvar %s %s = %v\n", name, q.typ, bv)
+			inputs = append(inputs, fmt.Sprintf("%s=%v", q.name, bv))
+		} else {
+			fmt.Fprintf(&body, "\tvar raw_%s uint64 = %#x\n\tvar %s = %s(raw_%s)\n", q.name, u, name, q.typ, q.name)
+			inputs = append(inputs, fmt.Sprintf("%s=%#x", q.name, u))
+		}
+		if q.ptr {
+			fmt.Fprintf(&body, "\tcell_%s := old_%s\n\t%s := &cell_%s\n", q.name, q.name, q.name, q.name)
+		}
+		fmt.Fprintf(&body, "\t_ = %s\n", name)
+	}
+	// requires
+	for _, r := range ct.Requires {
+		s, err := g.tr(r.E)
+		if err != nil {
+			return na("precondition %q cannot be evaluated in Go: %v", r.Src, err)
+		}
+		fmt.Fprintf(&body, "\tif !(%s) {\n\t\tfmt.Println(\"GOVC-REPLAY precondition-false: %s\")\n\t\treturn\n\t}\n", s, strings.ReplaceAll(r.Src, `"`, `'`))
+	}
+	// the call
+	if !ct.IsLemma {
+		var args []string
+		recv := ""
+		sig := ct.Fn.Signature
+		for i, q := range ct.Fn.Params {
+			if i == 0 && sig.Recv() != nil {
+				recv = q.Name()
+				continue
+			}
+			args = append(args, q.Name())
+		}
+		call := ct.Fn.Name() + "(" + strings.Join(args, ", ") + ")"
+		if recv != "" {
+			call = recv + "." + call
+		}
+		switch sig.Results().Len() {
+		case 0:
+			fmt.Fprintf(&body, "\t%s\n", call)
+		case 1:
+			fmt.Fprintf(&body, "\tr0 := %s\n\t_ = r0\n\tfmt.Printf(\"GOVC-REPLAY result=%%v\\n\", r0)\n", call)
+		case 2:
+			fmt.Fprintf(&body, "\tr0, r1 := %s\n\t_, _ = r0, r1\n\tfmt.Printf(\"GOVC-REPLAY result=%%v,%%v\\n\", r0, r1)\n", call)
+		default:
+			return na("more than two results")
+		}
+	}
+	for _, cl := range clauses {
+		s, err := g.tr(cl.E)
+		if err != nil {
+			return na("clause %q cannot be evaluated in Go: %v", cl.Src, err)
+		}
+		fmt.Fprintf(&body, "\tfmt.Printf(\"GOVC-REPLAY clause=%s holds=%%v\\n\", %s)\n", cl.Label, s)
+	}
+	specs, err := g.specFuncs()
+	if err != nil {
+		return na("%v", err)
+	}
+	// the package's own dot-import of types
+	pkgName := pkgPath[strings.LastIndex(pkgPath, "/")+1:]
+	var imps []string
+	imps = append(imps, `"fmt"`, `"testing"`)
+	if pkgPath != modulePath+"/internal/types" {
+		imps = append(imps, `. "`+modulePath+`/internal/types"`)
+	}
+	var ips []string
+	for ip := range g.imports {
+		ips = append(ips, ip)
+	}
+	sort.Strings(ips)
+	for _, ip := range ips {
+		if ip != pkgPath && ip != modulePath+"/internal/types" {
+			imps = append(imps, `"`+ip+`"`)
+		}
+	}
+	src := "//go:build go1.18\n\n// (the build line lifts the language version of this file above the module's go 1.14: generics)\n\npackage " + pkgName + "\n\nimport (\n\t" + strings.Join(imps, "\n\t") + "\n)\n\n" +
+		"var _ = MoveNone\n\n" +
+		"func govcIte[T any](c bool, a, b T) T {\n\tif c {\n\t\treturn a\n\t}\n\treturn b\n}\n" +
+		"func govcTestbit(b uint64, i int) bool { return i >= 0 && i < 64 && (b>>uint(i))&1 == 1 }\n" +
+		"func govcForall(lo, hi int, f func(int) bool) bool {\n\tfor i := lo; i < hi; i++ {\n\t\tif !f(i) {\n\t\t\treturn false\n\t\t}\n\t}\n\treturn true\n}\n" +
+		"func govcExists(lo, hi int, f func(int) bool) bool {\n\tfor i := lo; i < hi; i++ {\n\t\tif f(i) {\n\t\t\treturn true\n\t\t}\n\t}\n\treturn false\n}\n" +
+		"var _ = govcIte[int]\nvar _, _, _ = govcTestbit, govcForall, govcExists\n\n" + specs +
+		"\nfunc TestGovcReplay(t *testing.T) {\n\tdefer func() {\n\t\tif r := recover(); r != nil {\n\t\t\tfmt.Printf(\"GOVC-REPLAY panic=%v\\n\", r)\n\t\t}\n\t}()\n" + body.String() + "}\n"
+	rel := strings.TrimPrefix(pkgPath, modulePath+"/")
+	res := &ReplayResult{Attempted: true, Driver: "go test -overlay (in-package test calling the real function with the model's parameter values)",
+		Input: strings.Join(inputs, " "), PkgDir: rel, Test: src}
+	runReplay(p.root, res, ct.MayPanic)
+	return res
+}
+
+// runReplay executes the stored test against the repository and classifies the outcome
+func runReplay(repo string, res *ReplayResult, mayPanic bool) {
+	dir, err := os.MkdirTemp("", "govc-replay")
+	if err != nil {
+		res.Note = err.Error()
+		return
+	}
+	defer os.RemoveAll(dir)
+	tf := filepath.Join(dir, "zz_govc_replay_test.go")
+	os.WriteFile(tf, []byte(res.Test), 0o644)
+	ov, _ := json.Marshal(map[string]map[string]string{"Replace": {filepath.Join(repo, res.PkgDir, "zz_govc_replay_test.go"): tf}})
+	of := filepath.Join(dir, "overlay.json")
+	os.WriteFile(of, ov, 0o644)
+	cmd := exec.Command("go", "test", "-overlay", of, "-vet=off", "-count=1", "-timeout", "60s", "-v", "-run", "^TestGovcReplay$", "./"+res.PkgDir+"/")
+	cmd.Dir = repo
+	cmd.Env = append(os.Environ(), "GOFLAGS=-mod=mod", "GOPROXY=off", "GOSUMDB=off", "GOTOOLCHAIN=local")
+	done := make(chan struct{})
+	var out []byte
+	go func() { out, _ = cmd.CombinedOutput(); close(done) }()
+	select {
+	case <-done:
+	case <-time.After(180 * time.Second):
+		if cmd.Process != nil {
+			cmd.Process.Kill()
+		}
+		<-done
+	}
+	var keep []string
+	for _, l := range strings.Split(string(out), "\n") {
+		if strings.Contains(l, "GOVC-REPLAY") || strings.Contains(l, "zz_govc_replay_test.go") || strings.HasPrefix(l, "FAIL") || strings.HasPrefix(l, "ok") {
+			keep = append(keep, l)
+		}
+	}
+	res.Output = strings.Join(keep, "\n")
+	switch {
+	case strings.Contains(res.Output, "precondition-false"):
+		res.Note = "the model's parameter values do not satisfy the precondition on the real code (the model relies on abstracted parts)"
+	case strings.Contains(res.Output, "holds=false"):
+		res.Confirmed = true
+		res.Note = "the real code violates the clause on this input"
+	case strings.Contains(res.Output, "GOVC-REPLAY panic=") && !mayPanic:
+		res.Confirmed = true
+		res.Note = "the real code panics on this input"
+	case strings.Contains(res.Output, "holds=true"):
+		res.Note = "the real code satisfies the clause on the model's parameter values (the counterexample depends on state the driver does not translate)"
+	default:
+		res.Note = "replay test did not build or run"
+		if len(out) > 1500 {
+			out = out[:1500]
+		}
+		res.Output = string(out)
+	}
+}
+
+// replayFile re-runs the test stored in a replay file (bin/govc replay <file>)
+func replayFile(repo, path string) int {
+	data, err := os.ReadFile(path)
+	if err != nil {
+		fmt.Fprintln(os.Stderr, err)
+		return 2
+	}
+	var v Violation
+	if err := json.Unmarshal(data, &v); err != nil {
+		fmt.Fprintln(os.Stderr, err)
+		return 2
+	}
+	fmt.Printf("obligation %s (%s, %s): %s\n", v.Obligation, v.Kind, v.Status, v.Reason)
+	if v.Replay == nil || v.Replay.Test == "" {
+		fmt.Println("no executable replay is stored for this obligation; solver output:")
+		fmt.Println(v.Output)
+		return 1
+	}
+	r := *v.Replay
+	r.Confirmed = false
+	runReplay(repo, &r, false)
+	fmt.Printf("input: %s\n%s\n%s\n", r.Input, r.Output, r.Note)
+	if r.Confirmed {
+		return 1
+	}
+	return 0
 }
